@@ -430,6 +430,11 @@ pub open spec fn nfne_rel<T: Eq + PartialOrd + Send + Sync, A: Clone>(node_names
     }
 }
 
+// what reverse() returns: a graph rebuilt (new_from_nodes_and_edges) from the same nodes and every edge flipped
+pub open spec fn reverse_outcome<T: Eq + PartialOrd + Send + Sync, A: Clone>(g: Graph<T, A>, r: Result<Graph<T, A>, Error>) -> bool {
+    nfne_rel(node_names_of(g.nodes_vec@), Seq::new(g.all_edges_seq().len(), |i: int| spec_reversed(g.all_edges_seq()[i])), g.specs, r)
+}
+
 pub open spec fn node_names_of<T: Send, A>(v: Seq<Arc<Node<T, A>>>) -> Seq<T> {
     Seq::new(v.len(), |i: int| v[i].name)
 }
